@@ -41,20 +41,22 @@ def main():
             if not ps or ps & set(r.get('check_detect', [])):
                 continue
         todo.append(r)
-    jobs_l = [(muts[r['id']], p) for r in todo for p in PROPS]
+    if only_miss:
+        jobs_l = [(muts[r['id']], p) for r in todo for p in sorted({x.split('-')[0] for x in r['demos_failed']})]
+    else:
+        jobs_l = [(muts[r['id']], p) for r in todo for p in PROPS]
     res = {}
     with cf.ProcessPoolExecutor(max_workers=jobs) as ex:
         for mid, prop, rc, rules in ex.map(one, jobs_l, chunksize=10):
             res.setdefault(mid, {})[prop] = (rc, rules)
-    for r in rows:
-        if r['id'] in res:
-            rr = res[r['id']]
-            r['check_detect'] = sorted(p for p, (rc, _) in rr.items() if rc == 1)
-            r['check_error'] = sorted(p for p, (rc, _) in rr.items() if rc not in (0, 1))
-            r['rules'] = sorted({x for p, (rc, rs) in rr.items() for x in rs})
-    with open(os.path.join(d, 'results.jsonl'), 'w') as f:
-        for r in rows:
-            f.write(json.dumps(r) + '\n')
+    # results of the re-evaluation go to a side file (the experiment may still be appending to results.jsonl)
+    side = os.path.join(d, 'recheck.json')
+    prev = json.load(open(side)) if os.path.exists(side) else {}
+    for mid, rr in res.items():
+        prev[mid] = {'check_detect': sorted(p for p, (rc, _) in rr.items() if rc == 1),
+                     'check_error': sorted(p for p, (rc, _) in rr.items() if rc not in (0, 1)),
+                     'rules': sorted({x for p, (rc, rs) in rr.items() for x in rs})}
+    json.dump(prev, open(side, 'w'))
     print('rechecked', len(res))
 
 
